@@ -121,16 +121,27 @@ Paths == {<<F("a")>>, <<F("a"), F("b")>>, <<F("a"), I(0)>>, <<F("a"), I(1), F("b
 Docs == {JObj(<<>>), JObj(<<<<"a", JNum(IntV(5))>>>>), JObj(<<<<"a", JObj(<<<<"b", JNum(IntV(6))>>>>)>>>>),
          JObj(<<<<"a", JArr(<<JNum(IntV(7)), JObj(<<<<"b", JNum(IntV(8))>>>>)>>)>>>>), JArr(<<JNum(IntV(1)), JObj(<<<<"a", JNum(IntV(2))>>>>)>>),
          JObj(<<<<"a", JNull>>>>), JObj(<<<<"b", JNum(IntV(3))>>, <<"a", JNum(IntV(4))>>>>), JNum(IntV(1)), JStr(tAbc),
-         JObj(<<<<"a", JNum(IntV(1))>>, <<"a", JNum(IntV(2))>>>>)}
+         JObj(<<<<"a", JNum(IntV(1))>>, <<"a", JNum(IntV(2))>>>>),
+         \* objects whose keys look like array indexes (an index step addresses arrays only), arrays where a field step arrives
+         JObj(<<<<"a", JObj(<<<<"0", JNum(IntV(9))>>, <<"1", JObj(<<<<"b", JNum(IntV(7))>>>>)>>>>)>>>>), JObj(<<<<"0", JNum(IntV(5))>>, <<"1", JObj(<<<<"a", JNum(IntV(6))>>>>)>>>>),
+         JArr(<<JObj(<<<<"a", JNum(IntV(1))>>, <<"b", JNum(IntV(2))>>>>)>>), JObj(<<<<"a", JArr(<<JArr(<<JNum(IntV(1))>>), JNum(IntV(2))>>)>>, <<"b", JArr(<<JNum(IntV(3))>>)>>>>)}
 CasesJsonPath ==
   {[cols |-> <<JWith(JsonC(p, "int", ""), m), JsonC(<<F("b")>>, "int", "")>>, line |-> JLine(d, NoGroup, 0)] : p \in Paths, d \in Docs, m \in {"plain", "def", "nn"}}
   \cup {[cols |-> <<JWith(JsonC(<<F("a")>>, ty[1], ty[2]), m), TagCol>>, line |-> JLine(NoDoc, tag, k)] :
           ty \in JTypes, m \in JMods, tag \in {NoGroup, G(t12)}, k \in 1..5}
 
+\* the same documents written with insignificant whitespace around / inside them (layout codes 6..10 of the harness: leading blanks, a trailing blank,
+\* a trailing tab, a trailing CR, blanks inside): a JSON text stays the same document
+CasesJsonLayout ==
+  {c \in {[cols |-> <<JsonC(p, "int", ""), JWith(JsonC(<<F("b")>>, "int", ""), m), TagCol>>, line |-> JLine(d, tag, k)] :
+     p \in {<<F("a")>>, <<F("a"), I(0)>>}, m \in {"plain", "nn"}, tag \in {NoGroup, G(t12)}, k \in 6..10,
+     d \in {JObj(<<<<"a", JNum(IntV(5))>>>>), JObj(<<<<"b", JNum(IntV(3))>>, <<"a", JNum(IntV(4))>>>>), JObj(<<<<"a", JArr(<<JNum(IntV(7)), JNum(IntV(8))>>)>>, <<"b", JNum(IntV(1))>>>>), JArr(<<JNum(IntV(1))>>)}} :
+     c.line.doc.k = "arr" => c.line.tag = NoGroup}         \* the harness can only plant the tag text inside a top-level object
+
 Cases == (IF "types" \in CaseSets THEN CasesTypes ELSE {}) \cup (IF "rows" \in CaseSets THEN CasesRows \cup CasesTwoNotNull ELSE {})
          \cup (IF "ts" \in CaseSets THEN CasesTs ELSE {}) \cup (IF "arrays" \in CaseSets THEN CasesArrays \cup CasesCross ELSE {})
          \cup (IF "split" \in CaseSets THEN CasesSplit ELSE {})
-         \cup (IF "jsonleaf" \in CaseSets THEN CasesJsonLeaf ELSE {}) \cup (IF "jsonpath" \in CaseSets THEN CasesJsonPath ELSE {})
+         \cup (IF "jsonleaf" \in CaseSets THEN CasesJsonLeaf ELSE {}) \cup (IF "jsonpath" \in CaseSets THEN CasesJsonPath \cup CasesJsonLayout ELSE {})
 
 VARIABLE cs
 Init == cs \in Cases
